@@ -67,3 +67,5 @@ pub assume_specification[ String::len ](s: &String) -> (r: usize)
 // UTF-8 is injective: a string is determined by its bytes
 pub uninterp spec fn text_of(b: Seq<u8>) -> Seq<char>;
 pub broadcast axiom fn axiom_text_of(s: Seq<char>) ensures #[trigger] text_of(str_bytes(s)) == s;
+// vstd's own view of a str as bytes is the same UTF-8 encoding that str_bytes names
+pub broadcast axiom fn axiom_spec_bytes(s: Seq<char>) ensures #[trigger] vstd::utf8::encode_utf8(s) == str_bytes(s);
